@@ -557,9 +557,9 @@ def run(ctx):
             case(8, n, 0, o["d"], "", {"fn": "sec2dhms", "n": n})
             case(9, n, 0, o["h"], "", {"fn": "sec2hms", "n": n})
             dh_texts.append((o["d"], o["h"]))
-            if n > -2 ** 63:
-                if o["d"] != ref_sec2dhms(n) or o["h"] != ref_sec2hms(n):
-                    bad("sec2dhms-text", input=n, observed=[o["d"], o["h"]], expected=[ref_sec2dhms(n), ref_sec2hms(n)])
+            if o["d"] != ref_sec2dhms(n) or o["h"] != ref_sec2hms(n):  # every int64, -2**63 included (repaired c11aaec5f)
+                bad("dhms-roundtrip-minint64" if n == -2 ** 63 else "sec2dhms-text", input=n, observed=[o["d"], o["h"]], expected=[ref_sec2dhms(n), ref_sec2hms(n)],
+                    how="mlr -n put 'end{print sec2dhms(%d) . \" \" . sec2hms(%d)}'" % (n, n))
             if o["bd"] != ns or o["bh"] != ns:
                 bad("dhms-roundtrip-minint64" if n == -2 ** 63 else "dhms-roundtrip", input=n, observed={"sec2dhms": o["d"], "dhms2sec": o["bd"], "sec2hms": o["h"], "hms2sec": o["bh"]}, expected=ns,
                     how="mlr -n put 'end{print dhms2sec(sec2dhms(%d))}'" % n)
@@ -661,8 +661,9 @@ def zone_cases(ctx, zones, wlo, whi, pts, case, bad):
         allrows.append(rows)
         jobs.append(((["t"], rows, P(['sec2localtime($t, 0, "%s")' % name, 'localtime2sec(sec2localtime($t, 0, "%s"), "%s")' % (name, name),
                                       'gmt2localtime(sec2gmt($t), "%s")' % name, 'localtime2gmt(sec2localtime($t, 0, "%s"), "%s")' % (name, name), "sec2gmt($t)",
-                                      'strftime_local($t, "%%Y-%%m-%%d %%H:%%M:%%S", "%s")' % name]),
-                      ["l", "back", "g2l", "l2g", "g", "sfl"]), {}))
+                                      'strftime_local($t, "%%Y-%%m-%%d %%H:%%M:%%S", "%s")' % name,
+                                      'sec2localtime(localtime2sec(sec2localtime($t, 0, "%s"), "%s"), 0, "%s")' % (name, name, name)]),
+                      ["l", "back", "g2l", "l2g", "g", "sfl", "l2"]), {}))
     results = par(ctx, jobs)
     for zi, z in enumerate(zones):
         name = z["name"]
@@ -698,6 +699,12 @@ def zone_cases(ctx, zones, wlo, whi, pts, case, bad):
             cands = [wall - of for of in offs if off_at(wall - of) == of]
             if len(cands) == 1 and (o["back"] != str(t) or o["l2g"] != o["g"]):
                 bad("localtime-roundtrip", input={"t": t, "zone": name}, observed=o, expected=str(t))
+            # EVERY instant, overlap hours included (C16_local_round_trip_all_instants): the instant returned shows the same wall clock,
+            # and it is t or t shifted by the difference of two offsets of the table
+            if o["back"] == ERR or o["l2"] != o["l"] or (int(o["back"]) - t) not in set(a - b for a in offs for b in offs):
+                bad("localtime-roundtrip-same-reading", input={"t": t, "zone": name}, observed=o, expected="localtime2sec returns an instant with the same local text")
+            if len(cands) > 1:
+                ctx.dist("zone_overlap_instants")
     ctx.dist("zone_cases", n)
     # selection of the zone: --tz, TZ env, ENV["TZ"]; GMT functions unaffected
     t = 1500000000
